@@ -21,6 +21,12 @@
      issued by the owner; the subscription rows of the store, access control, the per-user
      online counters, presence, p2p, 'me', account deletion are not in this model (the driver
      exercises them on the real code);
+   - a store call can FAIL at one place: store.Topics.Delete inside Hub.topicUnreg (step [HubUnregFail], round
+     s14d); the topic's status word (paused / marked deleted bits) is Sys/TopicStatusC14d.v, of which this file
+     keeps `paused` as the phase PInit and `marked deleted` as [i_deleted];
+   - Session.detach is one of the unbounded queues: [s_detach] always appends.  The real channel has 64 slots and
+     the sender WAITS when it is full; that a notice is never dropped is checked on the code by the many-topics
+     scenarios of the driver (tools/props/c14d.py), not proved;
    - a topic NAME can have several INSTANCES over time (unload + reload); Session.subs points
      to the instance whose channels it holds, exactly like the Go Subscription struct. *)
 From Coq Require Import List Arith Bool.
@@ -38,7 +44,7 @@ Inductive rkind := KSub | KLeave (unsub : bool) | KDel.
    r_aschan = types.IsChannel(msg.Original): the client wrote chnXXX *)
 Record req := mkReq { r_sid : sid; r_rid : rid; r_kind : rkind; r_topic : tid; r_init : bool; r_aschan : bool }.
 
-Inductive code := COk | CAlready | CNotJoined | CAttachFirst | CLocked | CNotFound | CDenied | CNoAction | CEvicted | CUseOther.
+Inductive code := COk | CAlready | CNotJoined | CAttachFirst | CLocked | CNotFound | CDenied | CNoAction | CEvicted | CUseOther | CInternal.
 
 (* ghost outbox entry: ctrl with the request id (None: unsolicited notice), code, topic *)
 Record reply := mkRep { p_rid : option rid; p_code : code; p_topic : tid }.
@@ -93,7 +99,8 @@ Inductive label :=
 | TopicExit (i : inst)
 | SessDetach (s : sid)
 | DiscBegin (s : sid)
-| DiscEnd (s : sid).
+| DiscEnd (s : sid)
+| HubUnregFail.                                              (* {del topic} at the head of Hub.unreg; store.Topics.Delete FAILS *)
 
 (* ---------- small library ---------- *)
 
@@ -487,6 +494,28 @@ Definition exec (l : label) (c : config) : option config :=
       if negb (s_term x) || s_done x || negb (Nat.eqb (s_inflight x) 0) then None else
       let c := set_tunreg c (c_tunreg c ++ map (fun tj => (snd tj, mkReq s 0 (KLeave false) (fst tj) false false)) (s_subs x)) in
       Some (on_sess c s (fun x => mkSess (s_subs x) (s_inflight x) true true (s_out x) (s_detachq x)))
+  | HubUnregFail =>
+      (* hub.go:392-422 (case 1.1.1) and 526-532 (case 1.2.1.1) when store.Topics.Delete returns an error.
+         Case 1.1.1: t.markPaused(true); err := store.Topics.Delete(..); t.markPaused(false);
+         sess.queueOut(ErrUnknownReply) (500); return err - BEFORE h.topicDel, t.markDeleted() and the exit message.
+         The status word: TopicStatusC14d.unreg_del_status (markPaused(true) then markPaused(false) gives the word
+         back, theorem c14_failed_delete_restores_status), so the instance is left as it is.
+         Enabled when the call is reached: the topic is registered and not being loaded (a loading topic does not
+         show its owner yet: [HubUnreg false]), or it is not registered and its row exists (case 1.2: the owner's
+         subscription is found).  The store row stays. *)
+      match c_hunreg c with
+      | HDel r :: rest =>
+          let c := set_hunreg c rest in
+          let t := r_topic r in
+          match c_table c t with
+          | Some i =>
+              if is_init (i_phase (c_inst c i)) then None
+              else Some (on_sess c (r_sid r) (fun x => s_reply x (rep r CInternal)))
+          | None =>
+              if c_store c t then Some (on_sess c (r_sid r) (fun x => s_reply x (rep r CInternal))) else None
+          end
+      | _ => None
+      end
   end.
 
 Definition step (c : config) (l : label) (c' : config) : Prop := exec l c = Some c'.
